@@ -207,7 +207,10 @@ impl Ctx {
             }
         } else {
             // rotate shard assignment with the seed so capped runs differ in what they cover first
-            if (idx + self.seed) % self.nshards != self.shard {
+            // scatter case indices over the shards (a plain modulus lines up with the period of nested
+            // enumerations and puts all heavy cases on a few shards)
+            let h = idx.wrapping_mul(0x9E37_79B9_7F4A_7C15) >> 29;
+            if (h + self.seed) % self.nshards != self.shard {
                 return false;
             }
             if idx < self.resume_from || self.skip.contains(&idx) {
